@@ -48,7 +48,8 @@ pub enum ReqKind {
   Inspect,
   Healthz,
   /// 0 match_all, 1 limit 0, 2 malformed json, 3 term query, 4 unknown filter field,
-  /// 5 bad cursor, 6 aggregation on a non-fast field
+  /// 5 bad cursor, 6 aggregation on a non-fast field, 7.. requests whose error
+  /// message echoes a long non-ASCII caller string (variant encodes kind, pad, length)
   Search { variant: u8 },
   Raw { method: String, path: String, content_type: Option<String>, body: String },
 }
@@ -95,6 +96,15 @@ fn doc_json(spec: &DocSpec) -> String {
 
 fn is_valid(spec: &DocSpec) -> bool {
   matches!(spec, DocSpec::Valid { .. })
+}
+
+/// Valid today, but an id a stricter validation might legitimately refuse
+/// (whitespace, control characters...): a 4xx is tolerated, a loss is not.
+fn has_odd_id(spec: &DocSpec) -> bool {
+  match spec {
+    DocSpec::Valid { id, .. } => id.trim().len() != id.len() || id.chars().any(|c| c.is_control() || !c.is_ascii_alphanumeric()),
+    _ => false,
+  }
 }
 
 fn gen_docs(rng: &mut Rng, ids: &[String], ver: &mut u64, invalid_ok: bool, allow_malformed: bool) -> Vec<DocSpec> {
@@ -169,8 +179,17 @@ fn gen_transport(rng: &mut Rng, c24: bool) -> Transport {
   t
 }
 
+/// Ids that are unusual but valid (accepted when queued): surrounding
+/// whitespace, control and non-ASCII characters, quotes, slashes, length.
+const ODD_IDS: [&str; 10] = [" d0", "d1 ", "d\t2", "d\u{0007}3", "\u{00e9}\u{4e16}\u{1f600}", "a/b\\c", "\"q\"", "D0", "d 0", "xxxxxxxxxxxxxxxxxxxxxxxxxxxxxxxxxxxxxxxxxxxxxxxxxxxxxxxxxxxxxxxxxxxxxxxxxxxxxxxxxxxxxxxx"];
+
 fn gen_case(rng: &mut Rng, c24: bool, thorough: bool) -> HttpCase {
-  let ids: Vec<String> = (0..2 + rng.usize(3)).map(|i| format!("d{}", i)).collect();
+  let mut ids: Vec<String> = (0..2 + rng.usize(3)).map(|i| format!("d{}", i)).collect();
+  if rng.chance(1, 3) {
+    for _ in 0..1 + rng.usize(2) {
+      ids.push(rng.pick(&ODD_IDS).to_string());
+    }
+  }
   let mut ver = 1u64;
   let mut reqs = Vec::new();
   // sometimes poke the service before /init
@@ -217,7 +236,8 @@ fn gen_case(rng: &mut Rng, c24: bool, thorough: bool) -> HttpCase {
         malformed: c24 && rng.chance(1, 10),
       },
       2 => {
-        let mut v: Vec<String> = (0..1 + rng.usize(2)).map(|_| rng.pick(&ids).clone()).collect();
+        let plain: Vec<String> = ids.iter().filter(|i| i.trim().len() == i.len() && !i.chars().any(|c| c.is_control())).cloned().collect();
+        let mut v: Vec<String> = (0..1 + rng.usize(2)).map(|_| rng.pick(&plain).clone()).collect();
         if rng.chance(1, 6) {
           v.push(rng.pick(&["".to_string(), "  ".to_string(), " d0".to_string(), "d\u{0007}x".to_string()]).clone());
         }
@@ -227,7 +247,15 @@ fn gen_case(rng: &mut Rng, c24: bool, thorough: bool) -> HttpCase {
       4 => ReqKind::Refresh,
       5 => ReqKind::Compact,
       6 => ReqKind::Search {
-        variant: if c24 { rng.below(7) as u8 } else { 0 },
+        variant: if c24 {
+          if rng.chance(1, 3) {
+            7 + rng.below(240) as u8
+          } else {
+            rng.below(7) as u8
+          }
+        } else {
+          0
+        },
       },
       7 => ReqKind::Stats,
       8 => ReqKind::Inspect,
@@ -381,7 +409,21 @@ fn build(kind: &ReqKind) -> Built {
         3 => json!({"query": {"type": "term", "field": "body", "value": "alpha"}, "limit": 10, "return_stored": false}).to_string(),
         4 => json!({"query": {"type": "match_all"}, "filter": {"KeywordEq": {"field": "nosuch", "value": "x"}}, "limit": 10, "return_stored": false}).to_string(),
         5 => json!({"query": {"type": "match_all"}, "limit": 2, "cursor": "zz-not-hex", "return_stored": false}).to_string(),
-        _ => json!({"query": {"type": "match_all"}, "limit": 2, "return_stored": false, "aggs": {"a": {"type": "terms", "field": "body", "size": 3}}}).to_string(),
+        6 => json!({"query": {"type": "match_all"}, "limit": 2, "return_stored": false, "aggs": {"a": {"type": "terms", "field": "body", "size": 3}}}).to_string(),
+        v => {
+          // a long name mixing 1-, 2-, 3- and 4-byte characters at every alignment
+          let v = *v as usize - 7;
+          let pad = v % 4;
+          let unit = ["\u{00e9}", "\u{4e16}", "\u{1f600}", "\u{00e9}\u{4e16}"][(v / 4) % 4];
+          let reps = [90usize, 200, 400, 1200][(v / 16) % 4];
+          let name = format!("{}{}", "x".repeat(pad), unit.repeat(reps));
+          match (v / 64) % 4 {
+            0 => json!({"query": {"type": "match_all"}, "limit": 5, "return_stored": false, "sort": [{"field": name, "order": "asc"}]}).to_string(),
+            1 => json!({"query": {"type": "match_all"}, "filter": {"KeywordEq": {"field": name, "value": "x"}}, "limit": 5, "return_stored": false}).to_string(),
+            2 => json!({"query": {"type": "match_all"}, "limit": 5, "return_stored": false, "aggs": {"a": {"type": "terms", "field": name, "size": 3}}}).to_string(),
+            _ => json!({"query": {"type": "term", "field": name, "value": "x"}, "limit": 5, "return_stored": false}).to_string(),
+          }
+        }
       };
       Built {
         method: "POST",
@@ -670,7 +712,11 @@ async fn run_async(case: &HttpCase, dir: &Path, stats: &mut Stats) -> RunOut {
           if !initialised {
             Some(("no index -> 404", vec![404]))
           } else if docs.iter().all(is_valid) {
-            Some(("valid add -> 200", vec![200]))
+            if docs.iter().any(has_odd_id) {
+              Some(("valid add with an unusual id -> 200 (or a clean 4xx)", vec![200, 400, 422]))
+            } else {
+              Some(("valid add -> 200", vec![200]))
+            }
           } else {
             Some(("invalid document -> 4xx", vec![400, 422]))
           }
@@ -680,6 +726,8 @@ async fn run_async(case: &HttpCase, dir: &Path, stats: &mut Stats) -> RunOut {
             Some(("invalid bulk -> 4xx", vec![400, 422]))
           } else if !initialised {
             Some(("no index -> 404", vec![404]))
+          } else if docs.iter().any(has_odd_id) {
+            Some(("valid bulk with an unusual id -> 200 (or a clean 4xx)", vec![200, 400, 422]))
           } else {
             Some(("valid bulk -> 200", vec![200]))
           }
